@@ -18,9 +18,13 @@ class C08(Prop):
                  "g_ev_seen_reject", "g_ev_done", "g_ev_nomatch", "g_done", "handler.go")
     rule = ("histories for the real NewMergeHandler with 2-4 scripted children, one message in flight at a time "
             "(sentinel-NOTICE quiescence protocol): per REQ every child gets a script 'stored events (sorted, "
-            "sometimes not; duplicates across children from a pool of 3-8 events with timestamps 0..4), EOSE "
+            "sometimes not; duplicates across children from a pool of 3-8 events with timestamps 0..4, 4% at the ends of int64), EOSE "
             "(sometimes never, sometimes twice), live events'; scripts are interleaved at random with each other and "
-            "with client CLOSE, a second subscription, re-issued REQs, NOTICE/CLOSED and a little EVENT/OK traffic; "
+            "with client CLOSE, a second subscription, re-issued REQs, NOTICE/CLOSED and a little EVENT/OK traffic; 40% of "
+            "the child messages that directly follow a client message are emitted while the broadcast of that client message "
+            "has reached only the children before that child (the session has taken the message, the child has not seen it); "
+            "n/15 histories 'every child but the last has answered, the client sends CLOSE (or the REQ again), the last "
+            "child's answer overtakes the broadcast'; "
             "filters: 1-2, mostly wide, limit 0..4 in 60%; in every tier 24 histories with many children (31, 32, 33, 63, 64, 65, "
             "66, 70 children: one REQ, every child but one sends 'sometimes an event, EOSE' in random order, the remaining "
             "child — the first, the last, a random one — answers last, then a live event); n/10 more histories in which ONE "
@@ -84,8 +88,15 @@ class C08(Prop):
              "client_req": 0, "client_close": 0, "child_eose": 0, "merged_eose": 0, "child_event": 0,
              "events_forwarded": 0, "events_dropped": 0, "histories_with_31_or_more_children": 0,
              "histories_with_65_or_more_children": 0, "histories_with_2_sessions": 0, "histories_with_3_sessions": 0,
-             "failed_runs": 0}
+             "failed_runs": 0, "child_messages_overtaking_a_client_broadcast": 0, "of_which_after_a_close": 0}
         for c in cases:
+            prev = None
+            for st in c.get("steps") or []:
+                if st.get("early_ran"):
+                    d["child_messages_overtaking_a_client_broadcast"] += 1
+                    if prev and prev["k"] == "close":
+                        d["of_which_after_a_close"] += 1
+                prev = st
             d["children_%d" % c["n"]] = d.get("children_%d" % c["n"], 0) + 1
             if c.get("fail"):
                 d["failed_runs"] += 1
